@@ -516,10 +516,11 @@ func modeFault(thorough bool) {
 			}
 			wg.Add(1)
 			sem <- struct{}{}
+			sub := rng.Int63()
 			go func(k, f string) {
 				defer wg.Done()
 				defer func() { <-sem }()
-				faultScenario(k, f, rand.New(rand.NewSource(rng.Int63())))
+				faultScenario(k, f, rand.New(rand.NewSource(sub)))
 			}(k, f)
 		}
 	}
